@@ -1381,6 +1381,63 @@ func (g *gen) factory(fx *fctx, depth int) []*Stmt {
 	return out
 }
 
+// cothread: a coroutine suspended inside a function with known locals is inspected from outside
+// through the thread forms debug.getinfo(co, 1, ..), getlocal(co, 1, i), setlocal(co, 1, i, v):
+// current line = the statement that yielded, the variables in scope there.
+func (g *gen) cothread(fx *fctx, depth int) []*Stmt {
+	f := &Func{ID: g.fn()}
+	cx := &fctx{fn: f, parent: fx, callerNLoc: -1, underPcall: true}
+	cx.push()
+	pv := g.val()
+	f.Params = []Binding{{g.lname(), ival(pv)}}
+	cx.declare(f.Params[0])
+	body := func(n int) {
+		for ; n > 0; n-- {
+			f.Body = append(f.Body, g.declLocal(cx, true))
+		}
+	}
+	body(1 + g.r.Intn(2))
+	y := call(index(name("coroutine"), "yield"), num(1))
+	p := g.pt("chain")
+	y.Pt = p
+	// the yield sits in a nested block half of the time
+	var ys []*Stmt
+	nested := g.r.Bool()
+	if nested {
+		cx.push()
+		ys = append(ys, g.declLocal(cx, true))
+	}
+	if g.r.Bool() {
+		ys = append(ys, &Stmt{K: "call", Exprs: []*Expr{y}})
+	} else {
+		nm := g.lname()
+		ys = append(ys, &Stmt{K: "local", Names: []string{nm}, Exprs: []*Expr{g.wrapVal(y, false)}, Vals: []*int{nil}})
+		cx.declare(Binding{nm, nil})
+	}
+	if nested {
+		cx.pop()
+		f.Body = append(f.Body, &Stmt{K: "do", Body: ys})
+	} else {
+		f.Body = append(f.Body, ys...)
+	}
+	body(g.r.Intn(2))
+	f.Body = append(f.Body, &Stmt{K: "return", Exprs: []*Expr{num(1)}})
+	q := g.pt("QT")
+	g.lines = append(g.lines, lineObs{"range", func() int { return y.First }, func() int { return y.Anchor }, obsSrc{"cur", 0, q.ID, 1}, "currentline/thread"})
+	g.defLines(fixed(f), q.ID, 1)
+	g.scopes = append(g.scopes, scopeObs{fixed(f), p.ID, q.ID, 1})
+	co := g.fresh("co")
+	fx.declare(Binding{co, nil})
+	g.classes["cothread"] = true
+	g.size += 4
+	return []*Stmt{
+		{K: "local", Names: []string{co}, Vals: []*int{nil}, Exprs: []*Expr{call(index(name("coroutine"), "create"), &Expr{K: "func", Fn: f})}},
+		{K: "call", Exprs: []*Expr{call(index(name("coroutine"), "resume"), name(co), num(pv))}},
+		{K: "call", Exprs: []*Expr{call(name("QT"), num(q.ID), name(co))}},
+		{K: "call", Exprs: []*Expr{call(index(name("coroutine"), "resume"), name(co))}},
+	}
+}
+
 func (g *gen) perm(n int) []int {
 	p := make([]int, n)
 	for i := range p {
@@ -1444,6 +1501,8 @@ func (g *gen) act(fx *fctx, a action, depth int) []*Stmt {
 		return g.scenario(fx, depth)
 	case "factory":
 		return g.factory(fx, depth)
+	case "cothread":
+		return g.cothread(fx, depth)
 	}
 	panic("action " + a.K)
 }
@@ -1542,6 +1601,9 @@ func genProgram(r *lib.Rand) *Generated {
 		if r.Chance(30) {
 			acts = append(acts, action{K: "factory"})
 		}
+		if r.Chance(25) {
+			acts = append(acts, action{K: "cothread"})
+		}
 		if r.Chance(30) {
 			// a chain entered directly from the main chunk, returning normally
 			pl := chainPlan{n: 1 + r.Pick(5, 4, 1)}
@@ -1572,7 +1634,9 @@ func finish(g *gen, main *Func) *Generated {
 	}
 	for _, l := range g.lines {
 		if l.SpecTok() < 0 || l.ImplTok() < 0 {
-			continue
+			// linedefined / lastlinedefined of the main chunk: 0
+			zero := func() int { return 0 }
+			l = lineObs{"zero", zero, zero, l.Src, l.What + "/main"}
 		}
 		out.Lines = append(out.Lines, l)
 	}
